@@ -3,6 +3,7 @@
 diff(a, b) -> list of (path, kind, detail) with kind in
     missing  : populated in a, absent in b
     default  : explicitly set in a to the field default (or an empty sub-message other than a shape), absent in b
+    default+ : the converse (absent in a, explicitly set to the default in b)
     changed  : populated in both with different values
     extra    : absent in a, populated in b
 Map-like repeated fields are matched by key (order-insensitive); everything else positionally.
@@ -123,7 +124,9 @@ def diff(a, b, path="", keyed_nodes=False, out=None, limit=40):
                 empty = not sub.ListFields()
                 out.append((p, "default" if (empty and name != "shape") else "missing", _short(canon(sub))))
             else:
-                out.append((p, "extra", _short(canon(fb[name][1]))))
+                sub = fb[name][1]
+                empty = not sub.ListFields()
+                out.append((p, "default+" if (empty and name != "shape") else "extra", _short(canon(sub))))
             continue
         if name in fa and name in fb:
             if not _scalar_eq(fd, fa[name][1], fb[name][1]):
@@ -132,7 +135,8 @@ def diff(a, b, path="", keyed_nodes=False, out=None, limit=40):
             v = fa[name][1]
             out.append((p, "default" if v == fd.default_value else "missing", _short(v)))
         else:
-            out.append((p, "extra", _short(fb[name][1])))
+            v = fb[name][1]
+            out.append((p, "default+" if v == fd.default_value else "extra", _short(v)))
     if len(out) == n0:
         # same fields by value but different bytes: order inside a map-like field (use sort_keyed first to
         # rule that out) or a float whose signalling bit differs
